@@ -12,7 +12,12 @@ TRUST = ("Trusted: the reference model's constants typed in from the specificati
          "every run against the pinned official-calculator vectors), CPython, and that the tree "
          "under test is what `import cvss` loads from $VERIF_REPO. Every task runs in a fresh fork of "
          "a parent that never executed library code; a case that does not reproduce from its input "
-         "alone is replayed as its task prefix (history-dependent defects).")
+         "alone is replayed as its task prefix (history-dependent defects). Half of the tasks first run a "
+         "fixed history of valid use of every other entry point (vf/prior.py); E1 sweeps end every task "
+         "with revisits, 2,100 repetitions, the other entry points (Red Hat notation, text scanner, str "
+         "subclass, copy, pickle, hashed) and a second thread, run all call histories of length 5-6 over "
+         "four points from fresh processes, and add rows that vary all metric groups at once with "
+         "measured 3-/4-way value coverage (DESIGN 10.2c/10.2d).")
 
 reg("C03", "E1 product sweep",
     "explicit-state enumeration of the complete v2 effective-assignment product on the real "
@@ -30,8 +35,8 @@ reg("C01", "E1 product sweep",
     "class, compared point by point with an exact-rational reference model",
     "Every point of the property's finite quotient (thorough: 2 x 2,592 x 100 temporal spellings, "
     "2 x 2,592 x 48 x 27 environmental cases with inherited base values and the same 6.7M cases "
-    "with all eight Modified metrics overriding a differing base vector; quick: same blocks with a "
-    "12/4-point temporal skeleton) is constructed and all three scores compared with the "
+    "with all eight Modified metrics overriding a differing base vector; quick: the complete inherited "
+    "quotient as well, the override block with a 4-point temporal skeleton; both: 903 field layouts) is constructed and all three scores compared with the "
     "specification's equations in exact rationals (Roundup = ceiling to one decimal).",
     TRUST, "DESIGN.md section 3, C01")
 
